@@ -21,6 +21,10 @@ DEPS = os.path.join(ROOT, ".deps")
 
 
 def _bootstrap():
+    # always the repository's interpreter (/venv): wheels installed into .deps are interpreter-specific
+    venv_py = "/venv/bin/python"
+    if os.path.exists(venv_py) and os.path.realpath(sys.prefix) != "/venv" and not os.environ.get("VERIF_ANY_PYTHON"):
+        os.execve(venv_py, [venv_py] + sys.argv, dict(os.environ, PYTHONHASHSEED="0"))
     # determinism: never depend on str-hash order
     if os.environ.get("PYTHONHASHSEED") != "0":
         env = dict(os.environ, PYTHONHASHSEED="0")
